@@ -1,19 +1,40 @@
 /-
-  C15 print/parse, part 10: full parenthesisation and left associativity on the fragment.
+  C15 print/parse, part 10: full parenthesisation on the fragment.
 -/
 import RsjProofs.ParserRun9
 namespace Rsj.Parser
 
-/-- wrap every subexpression in a `Paren` node -/
-def fullParen : Expr → Expr
-  | .paren e sp => .paren (.paren (fullParen e) .zero) sp
-  | .unary op e sp => .unary op (.paren (fullParen e) .zero) sp
-  | .binary l op r sp => .binary (.paren (fullParen l) .zero) op (.paren (fullParen r) .zero) sp
-  | .field e n sp => .field (.paren (fullParen e) .zero) n sp
-  | .index e i sp => .index (.paren (fullParen e) .zero) (.paren (fullParen i) .zero) sp
-  | .inSuper e ssp sp => .inSuper (.paren (fullParen e) .zero) ssp sp
-  | .superIndex ssp i sp => .superIndex ssp (.paren (fullParen i) .zero) sp
-  | e => e
+mutual
+  /-- wrap every subexpression in a `Paren` node -/
+  def fullParen : Expr → Expr
+    | .paren e sp => .paren (.paren (fullParen e) .zero) sp
+    | .unary op e sp => .unary op (.paren (fullParen e) .zero) sp
+    | .binary l op r sp => .binary (.paren (fullParen l) .zero) op (.paren (fullParen r) .zero) sp
+    | .field e n sp => .field (.paren (fullParen e) .zero) n sp
+    | .index e i sp => .index (.paren (fullParen e) .zero) (.paren (fullParen i) .zero) sp
+    | .inSuper e ssp sp => .inSuper (.paren (fullParen e) .zero) ssp sp
+    | .superIndex ssp i sp => .superIndex ssp (.paren (fullParen i) .zero) sp
+    | .call f args ts sp => .call (.paren (fullParen f) .zero) (fullParenArgs args) ts sp
+    | e => e
+  def fullParenArgs : List Arg → List Arg
+    | [] => []
+    | .positional e :: as => .positional (.paren (fullParen e) .zero) :: fullParenArgs as
+    | .named n e :: as => .named n (.paren (fullParen e) .zero) :: fullParenArgs as
+end
+
+theorem fullParenArgs_frag : ∀ (args : List Arg), (∀ a ∈ args, Frag (fullParen a.expr)) →
+    ∀ a ∈ fullParenArgs args, Frag a.expr
+  | [], _, a, ha => by simp [fullParenArgs] at ha
+  | .positional e :: as, h, a, ha => by
+    simp only [fullParenArgs, List.mem_cons] at ha
+    rcases ha with rfl | ha
+    · exact .paren _ (h (.positional e) (by simp))
+    · exact fullParenArgs_frag as (fun x hx => h x (by simp [hx])) a ha
+  | .named n e :: as, h, a, ha => by
+    simp only [fullParenArgs, List.mem_cons] at ha
+    rcases ha with rfl | ha
+    · exact .paren _ (h (.named n e) (by simp))
+    · exact fullParenArgs_frag as (fun x hx => h x (by simp [hx])) a ha
 
 theorem fullParen_frag {e : Expr} (h : Frag e) : Frag (fullParen e) := by
   induction h with
@@ -33,6 +54,22 @@ theorem fullParen_frag {e : Expr} (h : Frag e) : Frag (fullParen e) := by
   | field name sp _ ih => exact .field name sp (.paren _ ih)
   | index sp _ _ ihe ihi => exact .index sp (.paren _ ihe) (.paren _ ihi)
   | inSuper ssp sp _ ih => exact .inSuper ssp sp (.paren _ ih)
+  | call args ts sp _ _ ihf iha =>
+    exact .call _ ts sp (.paren _ ihf) (fullParenArgs_frag args iha)
+
+theorem fullParenArgs_erase : ∀ (args : List Arg), (∀ a ∈ args, (fullParen a.expr).erase = a.expr.erase) →
+    eraseArgs (fullParenArgs args) = eraseArgs args
+  | [], _ => rfl
+  | .positional e :: as, h => by
+    have h1 := h (.positional e) (by simp)
+    simp only [Arg.expr] at h1
+    simp [fullParenArgs, eraseArgs, Arg.erase, Expr.erase, h1,
+      fullParenArgs_erase as (fun x hx => h x (by simp [hx]))]
+  | .named n e :: as, h => by
+    have h1 := h (.named n e) (by simp)
+    simp only [Arg.expr] at h1
+    simp [fullParenArgs, eraseArgs, Arg.erase, Expr.erase, h1,
+      fullParenArgs_erase as (fun x hx => h x (by simp [hx]))]
 
 theorem fullParen_erase {e : Expr} (h : Frag e) : (fullParen e).erase = e.erase := by
   induction h with
@@ -43,10 +80,31 @@ theorem fullParen_erase {e : Expr} (h : Frag e) : (fullParen e).erase = e.erase 
   | field name sp _ ih => simp [fullParen, Expr.erase, ih]
   | index sp _ _ ihe ihi => simp [fullParen, Expr.erase, ihe, ihi]
   | inSuper ssp sp _ ih => simp [fullParen, Expr.erase, ih]
+  | call args ts sp _ _ ihf iha => simp [fullParen, Expr.erase, ihf, fullParenArgs_erase args iha]
   | _ => rfl
 
-theorem sub_true (e : Expr) (lvl : Nat) (o el : Bool) : sub true e lvl o el = parens (pr true e 0 false false) := by
-  simp [sub]
+theorem prArgs_full : ∀ (args : List Arg),
+    (∀ a ∈ args, pr true a.expr 0 false false = pr false (fullParen a.expr) 0 false false) →
+    prArgs true args = prArgs false (fullParenArgs args)
+  | [], _ => by simp [prArgs, fullParenArgs]
+  | [.positional e], h => by
+    have h1 := h (.positional e) (by simp)
+    simp only [Arg.expr] at h1
+    simp [prArgs, prArg, fullParenArgs, sub, pr, h1]
+  | [.named n e], h => by
+    have h1 := h (.named n e) (by simp)
+    simp only [Arg.expr] at h1
+    simp [prArgs, prArg, fullParenArgs, sub, pr, h1]
+  | .positional e :: b :: rest, h => by
+    have h1 := h (.positional e) (by simp)
+    simp only [Arg.expr] at h1
+    have h2 := prArgs_full (b :: rest) (fun x hx => h x (by simp [hx]))
+    cases b <;> simp [prArgs, prArg, fullParenArgs, sub, pr, h1] at h2 ⊢ <;> exact h2
+  | .named n e :: b :: rest, h => by
+    have h1 := h (.named n e) (by simp)
+    simp only [Arg.expr] at h1
+    have h2 := prArgs_full (b :: rest) (fun x hx => h x (by simp [hx]))
+    cases b <;> simp [prArgs, prArg, fullParenArgs, sub, pr, h1] at h2 ⊢ <;> exact h2
 
 /-- printing with every subexpression parenthesised = minimal printing of the tree with explicit
     `Paren` nodes around every subexpression -/
@@ -65,5 +123,6 @@ theorem printFull_eq {e : Expr} (h : Frag e) : printFull e = printMin (fullParen
   | inSuper ssp sp he ih =>
     have h0 : ¬ inSuperKind.prec < 0 := by decide
     simp [fullParen, pr, sub, ih, h0]
+  | call args ts sp hf ha ihf iha => simp [fullParen, pr, sub, ihf, prArgs_full args iha]
 
 end Rsj.Parser
